@@ -93,17 +93,40 @@ Proof.
   - intros H; injection H as <- <-. left; split; [discriminate|reflexivity].
 Qed.
 
-(* SkipAnswer on a state with a pending header *)
-Lemma skip_answer_valid m st : p_valid st = true ->
-  consumed_or_same m st (fst (skip_resource m st secAnswers)).
+(* with the parser inside the section being asked for *)
+Lemma check_advance_eq m st sec : p_section st = sec ->
+  check_advance m st sec =
+    if Nat.eqb (p_index st) (count m sec)
+    then (mkP (S sec) 0 false (p_pos st), Some PSectionDone)
+    else (mkP sec (p_index st) false (p_pos st), None).
 Proof.
-  intros Hv. unfold skip_resource, consumed_or_same. rewrite Hv. cbn [andb].
-  destruct (Nat.eqb (p_section st) secAnswers) eqn:Es.
-  - unfold cur. destruct (nth_error (m_recs m) (p_pos st)) as [r|] eqn:En; [|left; reflexivity].
-    apply nth_error_lt in En. destruct (r_fits r); cbn [fst]; auto.
-  - apply Nat.eqb_neq in Es. unfold check_advance.
-    destruct (Nat.ltb_spec (p_section st) secAnswers); [left; reflexivity|].
-    destruct (Nat.ltb_spec secAnswers (p_section st)); [left; reflexivity|]. lia.
+  intros <-. unfold check_advance. rewrite Nat.ltb_irrefl. reflexivity.
+Qed.
+
+Inductive hdr_result (m : dmsg) (st : pstate) (sec : nat) : pstate * (perr + rrec) -> Prop :=
+| HdrDone : hdr_result m st sec (mkP (S sec) 0 false (p_pos st), inl PSectionDone)
+| HdrErr : hdr_result m st sec (mkP sec (p_index st) false (p_pos st), inl POther)
+| HdrRec r : nth_error (m_recs m) (p_pos st) = Some r ->
+    hdr_result m st sec (mkP sec (p_index st) true (p_pos st), inr r).
+
+Lemma resource_header_eq m st sec : p_section st = sec ->
+  hdr_result m st sec (resource_header m st sec).
+Proof.
+  intros Hs. unfold resource_header. rewrite (check_advance_eq m st sec Hs).
+  destruct (Nat.eqb (p_index st) (count m sec)); [constructor|].
+  cbn [p_pos p_section p_index].
+  destruct (nth_error (m_recs m) (p_pos st)) as [r|] eqn:E; [|constructor].
+  destruct (r_hdr_ok r); [constructor; exact E|constructor].
+Qed.
+
+(* skipResource on a pending header in its own section: consumes or fails without change *)
+Lemma skip_resource_valid m st sec : p_valid st = true -> p_section st = sec ->
+  skip_resource m st sec = (st, Some POther) \/
+  (skip_resource m st sec = (consume st, None) /\ (p_pos st < List.length (m_recs m))%nat).
+Proof.
+  intros Hv Hs. unfold skip_resource. rewrite Hv, Hs, Nat.eqb_refl. cbn [andb].
+  unfold cur. destruct (nth_error (m_recs m) (p_pos st)) as [r|] eqn:En; [|left; reflexivity].
+  apply nth_error_lt in En. destruct (r_fits r); [right; auto|left; reflexivity].
 Qed.
 
 Lemma pmu_hdr m st st1 : st1 = mkP (p_section st) (p_index st) true (p_pos st) ->
@@ -118,74 +141,65 @@ Lemma pmu_consume m st : (p_pos st < List.length (m_recs m))%nat -> p_valid st =
   (pmu m (consume st) < pmu m st)%nat.
 Proof. intros H Hv. unfold pmu, consume; cbn. rewrite Hv. lia. Qed.
 
-(* ---------------------------------------------------------------- mDNS *)
+(* ---------------------------------------------------------------- mDNS (as repaired, #20) *)
 Section MDNS.
   Variable m : dmsg.
   Let n := List.length (m_recs m).
 
   Definition mdns_mu (x : mdns_state) : nat := (pmu m (fst x) + 2 * (5 - snd x))%nat.
-  Definition mdns_inv (x : mdns_state) : Prop := (snd x <= 5)%nat.
+  Definition mdns_inv (x : mdns_state) : Prop := p_section (fst x) = snd x /\ (snd x <= 5)%nat.
 
-  Lemma mdns_skip_dec st st1 sec :
-    st1 = mkP (p_section st) (p_index st) true (p_pos st) ->
-    mdns_state_eqb (st, sec) (fst (skip_resource m st1 secAnswers), sec) = false ->
-    (mdns_mu (fst (skip_resource m st1 secAnswers), sec) < mdns_mu (st, sec))%nat.
+  (* a continuing step consumed one record or moved to the next section *)
+  Definition mdns_progress (x x' : mdns_state) : Prop :=
+    mdns_inv x' /\ (mdns_mu x' < mdns_mu x)%nat.
+
+  Lemma mdns_consume_progress st sec st1 :
+    (sec <= 5)%nat -> st1 = mkP sec (p_index st) true (p_pos st) ->
+    (p_pos st < n)%nat -> mdns_progress (st, sec) (consume st1, sec).
   Proof.
-    intros H1 Hne. unfold mdns_mu; cbn [fst snd].
-    assert (Hv1 : p_valid st1 = true) by (subst st1; reflexivity).
-    destruct (skip_answer_valid m st1 Hv1) as [Hs|[Hs Hp]]; rewrite Hs in *.
-    - destruct (pmu_hdr m st st1 H1) as [[-> _]|[Hlt _]]; [|lia].
-      unfold mdns_state_eqb in Hne; cbn [fst snd] in Hne.
-      rewrite pstate_eqb_refl, Nat.eqb_refl in Hne. discriminate.
-    - pose proof (pmu_consume m st1 Hp Hv1).
-      destruct (pmu_hdr m st st1 H1) as [[-> _]|[Hlt _]]; lia.
+    intros Hs -> Hp. unfold mdns_progress, mdns_inv, mdns_mu, pmu, consume; cbn [fst snd p_pos p_valid p_section p_index]. fold n.
+    split; [auto|]. destruct (p_valid st); lia.
   Qed.
 
-  Lemma mdns_step_dec x x' : mdns_inv x -> mdns_step m x = Cont x' ->
-    mdns_state_eqb x x' = false -> (mdns_mu x' < mdns_mu x)%nat.
+  Lemma mdns_skip_progress st sec st1 x' :
+    (sec <= 5)%nat -> st1 = mkP sec (p_index st) true (p_pos st) ->
+    mdns_skip m st1 sec = Cont x' -> mdns_progress (st, sec) x'.
   Proof.
-    destruct x as [st sec]. unfold mdns_inv; cbn [snd]. intros Hs. unfold mdns_step.
-    destruct (resource_header m st sec) as [st1 [e|r]] eqn:Eh.
-    - destruct e; try discriminate.
-      destruct (Nat.eqb_spec sec secAdditionals); [discriminate|].
-      intros H; injection H as <-. intros _. unfold secAdditionals in *.
-      apply resource_header_done in Eh. unfold mdns_mu; cbn [fst snd].
-      destruct Eh as [->|[Hp Hv]]; [lia|]. unfold pmu. rewrite Hp, Hv.
-      destruct (p_valid st); lia.
-    - apply resource_header_rec in Eh. destruct Eh as [H1 Hn].
-      assert (Hv1 : p_valid st1 = true) by (subst st1; reflexivity).
-      assert (Hp1 : p_pos st1 = p_pos st) by (subst st1; reflexivity).
-      assert (Hle : (pmu m st1 <= pmu m st)%nat).
-      { destruct (pmu_hdr m st st1 H1) as [[-> _]|[Hlt _]]; lia. }
+    intros Hs H1. unfold mdns_skip.
+    destruct (skip_resource_valid m st1 sec) as [E|[E Hp]]; try (subst st1; reflexivity).
+    - rewrite E. discriminate.
+    - rewrite E. intros H; apply (f_equal (fun l => match l with Cont y => y | _ => x' end)) in H.
+      subst x'. subst st1. cbn [p_pos] in Hp. apply mdns_consume_progress; auto.
+  Qed.
+
+  Lemma mdns_skip_stop st sec r : mdns_skip m st sec = Stop r -> safe r.
+  Proof.
+    unfold mdns_skip. destruct (skip_resource m st sec) as [st' [e|]]; intros H; [|discriminate].
+    injection H as <-. sdone.
+  Qed.
+
+  Lemma mdns_step_progress x x' : mdns_inv x -> mdns_step m x = Cont x' -> mdns_progress x x'.
+  Proof.
+    destruct x as [st sec]. unfold mdns_inv; cbn [fst snd]. intros [Hsec Hs]. unfold mdns_step.
+    destruct (resource_header_eq m st sec Hsec) as [| |r Hn].
+    - destruct (Nat.eqb_spec sec secAdditionals); [discriminate|].
+      intros H; injection H as <-. unfold secAdditionals in *.
+      unfold mdns_progress, mdns_inv, mdns_mu, pmu; cbn [fst snd p_pos p_valid p_section p_index]. split; [lia|]. destruct (p_valid st); lia.
+    - discriminate.
+    - apply nth_error_lt in Hn. fold n in Hn.
+      set (st1 := mkP sec (p_index st) true (p_pos st)).
+      assert (H1 : st1 = mkP sec (p_index st) true (p_pos st)) by reflexivity.
       destruct ((r_type r =? ty_A) || (r_type r =? ty_AAAA)).
       { destruct (typed_resource m st1 (r_type r)) as [st2 [e|]] eqn:Et; [discriminate|].
         apply typed_resource_cases in Et. destruct Et as [[Hc _]|[_ [-> Hp]]]; [congruence|].
-        intros H; injection H as <-. intros _. unfold mdns_mu; cbn [fst snd].
-        pose proof (pmu_consume m st1 Hp Hv1). lia. }
+        intros H; injection H as <-. apply mdns_consume_progress; auto. }
       destruct ((r_type r =? ty_PTR) || (r_type r =? ty_SRV) || (r_type r =? ty_TXT) || (r_type r =? ty_OPT)).
       { destruct (typed_resource m st1 (r_type r)) as [st2 [e|]] eqn:Et;
           apply typed_resource_cases in Et.
-        - destruct Et as [[_ ->]|[Hc _]]; [|discriminate].
-          intros H; injection H as <-. apply mdns_skip_dec. exact H1.
+        - destruct Et as [[_ ->]|[Hc _]]; [|discriminate]. apply mdns_skip_progress; auto.
         - destruct Et as [[Hc _]|[_ [-> Hp]]]; [congruence|].
-          intros H; injection H as <-. intros _. unfold mdns_mu; cbn [fst snd].
-          pose proof (pmu_consume m st1 Hp Hv1). lia. }
-      intros H; injection H as <-. apply mdns_skip_dec. exact H1.
-  Qed.
-
-  Lemma mdns_step_inv x x' : mdns_inv x -> mdns_step m x = Cont x' -> mdns_inv x'.
-  Proof.
-    destruct x as [st sec]. unfold mdns_inv; cbn [snd]. intros Hs. unfold mdns_step.
-    destruct (resource_header m st sec) as [st1 [e|r]] eqn:Eh.
-    - destruct e; try discriminate.
-      destruct (Nat.eqb_spec sec secAdditionals); [discriminate|].
-      intros H; injection H as <-. cbn [snd]. unfold secAdditionals in *. lia.
-    - destruct ((r_type r =? ty_A) || (r_type r =? ty_AAAA)).
-      { destruct (typed_resource m st1 (r_type r)) as [st2 [e|]]; [discriminate|].
-        intros H; injection H as <-. exact Hs. }
-      destruct ((r_type r =? ty_PTR) || (r_type r =? ty_SRV) || (r_type r =? ty_TXT) || (r_type r =? ty_OPT)).
-      { destruct (typed_resource m st1 (r_type r)) as [st2 [e|]]; intros H; injection H as <-; exact Hs. }
-      intros H; injection H as <-. exact Hs.
+          intros H; injection H as <-. apply mdns_consume_progress; auto. }
+      apply mdns_skip_progress; auto.
   Qed.
 
   Lemma mdns_stop_safe x r : mdns_inv x -> mdns_step m x = Stop r -> safe r.
@@ -197,40 +211,27 @@ Section MDNS.
     - destruct ((r_type r0 =? ty_A) || (r_type r0 =? ty_AAAA)).
       { destruct (typed_resource m st1 (r_type r0)) as [st2 [e|]]; intros H; [injection H as <-; sdone|discriminate]. }
       destruct ((r_type r0 =? ty_PTR) || (r_type r0 =? ty_SRV) || (r_type r0 =? ty_TXT) || (r_type r0 =? ty_OPT)).
-      { destruct (typed_resource m st1 (r_type r0)) as [st2 [e|]]; discriminate. }
-      discriminate.
+      { destruct (typed_resource m st1 (r_type r0)) as [st2 [e|]]; [apply mdns_skip_stop|discriminate]. }
+      apply mdns_skip_stop.
   Qed.
 
-  Theorem process_mdns_partial : known_C08_mdns m = MNone ->
+  Theorem process_mdns_total :
     forall fuel, (2 * n + 8 <= fuel)%nat -> safe (process_mdns fuel m).
   Proof.
-    unfold known_C08_mdns, process_mdns. intros Hk fuel Hf.
-    destruct (m_start_ok m); cbn [negb andb] in *; [|sdone].
-    destruct (m_response m); cbn [negb andb] in *; [|sdone].
-    destruct (m_skipq_ok m); cbn [negb andb] in *; [|sdone].
-    fold n in Hk.
-    destruct (spins (mdns_step m) mdns_state_eqb (2 * n + 8) (start_state, secAnswers)) as [[st sec]|] eqn:Es.
-    { destruct (Nat.eqb sec secAnswers); discriminate. }
-    eapply (iter_total (mdns_step m) mdns_state_eqb mdns_state_eqb_eq mdns_mu mdns_inv
-              mdns_step_inv mdns_step_dec mdns_stop_safe (2 * n + 8)); try eassumption.
-    - unfold mdns_inv, secAnswers; cbn; lia.
+    unfold process_mdns. intros fuel Hf.
+    destruct (m_start_ok m); cbn [negb]; [|sdone].
+    destruct (m_response m); cbn [negb]; [|sdone].
+    destruct (m_skipq_ok m); cbn [negb]; [|sdone].
+    eapply (iter_total_dec (mdns_step m) mdns_mu mdns_inv
+              (fun x x' Hi E => proj1 (mdns_step_progress x x' Hi E)) mdns_stop_safe
+              (fun x x' Hi E => proj2 (mdns_step_progress x x' Hi E)) (2 * n + 8)).
+    - unfold mdns_inv, start_state, secAnswers; cbn [fst snd p_pos p_valid p_section p_index]; lia.
     - unfold mdns_mu, pmu, start_state, secAnswers; cbn [fst snd p_pos p_valid]. fold n. lia.
-  Qed.
-
-  Theorem process_mdns_known_spins : known_C08_mdns m <> MNone ->
-    forall fuel, process_mdns fuel m = Fuel.
-  Proof.
-    unfold known_C08_mdns, process_mdns. intros Hk fuel.
-    destruct (m_start_ok m); cbn [negb andb] in *; [|congruence].
-    destruct (m_response m); cbn [negb andb] in *; [|congruence].
-    destruct (m_skipq_ok m); cbn [negb andb] in *; [|congruence].
-    destruct (spins (mdns_step m) mdns_state_eqb (2 * List.length (m_recs m) + 8) (start_state, secAnswers)) as [y|] eqn:Es;
-      [|congruence].
-    eapply iter_spins; [exact mdns_state_eqb_eq|exact Es].
+    - exact Hf.
   Qed.
 End MDNS.
 
-(* witnesses: DESIGN section 11 #20 and the ignored SkipAnswer error inside the answer section *)
+(* the former witnesses of #20 and of the ignored SkipAnswer error now terminate *)
 Definition mdns_w_authority : dmsg :=
   mkMsg true true true 0 1 0 [mkRec true 47 false true true []].
 Definition mdns_w_answer_nofit : dmsg :=
@@ -238,24 +239,12 @@ Definition mdns_w_answer_nofit : dmsg :=
 Definition mdns_w_good : dmsg :=
   mkMsg true true true 2 1 1
     [mkRec true 12 true true true []; mkRec true 47 false true true [];
-     mkRec true 1 true true true []; mkRec true 41 true true true []].
+     mkRec true 1 true true true []; mkRec true 47 true true true []].
 
-Lemma mdns_refuted_authority :
-  known_C08_mdns mdns_w_authority = MOutsideAnswers /\ forall fuel, process_mdns fuel mdns_w_authority = Fuel.
-Proof.
-  split; [vm_compute; reflexivity|]. apply process_mdns_known_spins. vm_compute. discriminate.
-Qed.
-
-Lemma mdns_refuted_answer_nofit :
-  known_C08_mdns mdns_w_answer_nofit = MSkipFailed /\ forall fuel, process_mdns fuel mdns_w_answer_nofit = Fuel.
-Proof.
-  split; [vm_compute; reflexivity|]. apply process_mdns_known_spins. vm_compute. discriminate.
-Qed.
-
-(* NSEC in the ANSWER section is skipped correctly; typed records in any section are fine *)
 Lemma mdns_nonvacuous :
-  known_C08_mdns mdns_w_good = MNone /\ process_mdns 16 mdns_w_good = Ok tt.
-Proof. split; vm_compute; reflexivity. Qed.
+  process_mdns 16 mdns_w_good = Ok tt /\ process_mdns 16 mdns_w_authority = Ok tt /\
+  process_mdns 16 mdns_w_answer_nofit = Err EOther.
+Proof. repeat split; vm_compute; reflexivity. Qed.
 
 (* ---------------------------------------------------------------- NBNS node name array *)
 Lemma node_names_ok n : forall i b have, (18 * (i + n) <= cap b)%nat ->
@@ -281,7 +270,7 @@ Proof.
   - rewrite Hv. sdone.
 Qed.
 
-(* ---------------------------------------------------------------- NBNS loop *)
+(* ---------------------------------------------------------------- NBNS loop (as repaired, #19) *)
 Section NBNS.
   Variable m : dmsg.
   Let n := List.length (m_recs m).
@@ -289,72 +278,64 @@ Section NBNS.
   Lemma of_bytes_wf l : wf (of_bytes l).
   Proof. unfold wf, of_bytes, cap; cbn. lia. Qed.
 
-  Lemma nbns_step_dec st st' : True -> nbns_step m st = Cont st' ->
-    pstate_eqb st st' = false -> (pmu m st' < pmu m st)%nat.
+  Definition nbns_inv (st : pstate) : Prop := p_section st = secAnswers.
+
+  Lemma nbns_step_progress st st' : nbns_inv st -> nbns_step m st = Cont st' ->
+    nbns_inv st' /\ (pmu m st' < pmu m st)%nat.
   Proof.
-    intros _. unfold nbns_step.
-    destruct (resource_header m st secAnswers) as [st1 [e|r]] eqn:Eh; [destruct e; discriminate|].
-    apply resource_header_rec in Eh. destruct Eh as [H1 Hn].
-    assert (Hv1 : p_valid st1 = true) by (subst st1; reflexivity).
+    unfold nbns_inv. intros Hsec. unfold nbns_step.
+    destruct (resource_header_eq m st secAnswers Hsec) as [| |r Hn]; try discriminate.
+    apply nth_error_lt in Hn. fold n in Hn.
+    set (st1 := mkP secAnswers (p_index st) true (p_pos st)).
+    assert (Hc : nbns_inv (consume st1) /\ (pmu m (consume st1) < pmu m st)%nat).
+    { unfold nbns_inv, pmu, consume, st1; cbn [fst snd p_pos p_valid p_section p_index]. fold n. split; [reflexivity|]. destruct (p_valid st); lia. }
     destruct (r_type r =? 33).
     - destruct (unknown_resource m st1) as [st2 [e|]] eqn:Eu; [discriminate|].
-      apply unknown_resource_cases in Eu. destruct Eu as [[Hc _]|[_ [-> Hp]]]; [congruence|].
-      pose proof (pmu_consume m st1 Hp Hv1).
-      assert ((pmu m st1 <= pmu m st)%nat) by (destruct (pmu_hdr m st st1 H1) as [[-> _]|[Hlt _]]; lia).
+      apply unknown_resource_cases in Eu. destruct Eu as [[Hx _]|[_ [-> Hp]]]; [congruence|].
       destruct (node_status_response (of_bytes (r_data r))) as [[|]| | |]; try discriminate;
-        intros H'; injection H' as <-; intros _; lia.
-    - intros H'; injection H' as <-. intros Hne.
-      destruct (pmu_hdr m st st1 H1) as [[-> _]|[Hlt _]]; [|lia].
-      rewrite pstate_eqb_refl in Hne. discriminate.
+        intros H'; injection H' as <-; exact Hc.
+    - destruct (skip_resource_valid m st1 secAnswers) as [E|[E Hp]]; try reflexivity; rewrite E.
+      + discriminate.
+      + intros H'; injection H' as <-. exact Hc.
   Qed.
 
-  Lemma nbns_stop_safe : forall st r, True -> nbns_step m st = Stop r -> safe r.
+  Lemma nbns_stop_safe : forall st r, nbns_inv st -> nbns_step m st = Stop r -> safe r.
   Proof.
     intros st r _. unfold nbns_step.
     destruct (resource_header m st secAnswers) as [st1 [e|r0]] eqn:Eh.
     { destruct e; intros H; injection H as <-; sdone. }
-    apply resource_header_rec in Eh. destruct Eh as [H1 Hn].
-    destruct (r_type r0 =? 33) eqn:Et; [|discriminate].
-    destruct (unknown_resource m st1) as [st2 [e|]]; [intros H; injection H as <-; sdone|].
-    pose proof (node_status_total _ (of_bytes_wf (r_data r0))) as [Hp Hf].
-    destruct (node_status_response (of_bytes (r_data r0))) as [[|]| | |]; try congruence;
-      try discriminate; intros H; injection H as <-; sdone.
+    destruct (r_type r0 =? 33) eqn:Et.
+    - destruct (unknown_resource m st1) as [st2 [e|]]; [intros H; injection H as <-; sdone|].
+      pose proof (node_status_total _ (of_bytes_wf (r_data r0))) as [Hp Hf].
+      destruct (node_status_response (of_bytes (r_data r0))) as [[|]| | |]; try congruence;
+        try discriminate; intros H; injection H as <-; sdone.
+    - destruct (skip_resource m st1 secAnswers) as [st2 [e|]]; [intros H; injection H as <-; sdone|discriminate].
   Qed.
 
-  Theorem process_nbns_partial valid : known_C08_nbns valid m = NNone ->
+  Theorem process_nbns_total valid :
     forall fuel, (2 * n + 4 <= fuel)%nat -> safe (process_nbns fuel valid m).
   Proof.
-    unfold known_C08_nbns, process_nbns. intros Hk fuel Hf.
-    destruct valid; cbn [negb andb] in *; [|sdone].
-    destruct (m_start_ok m); cbn [negb andb] in *; [|sdone].
-    destruct (m_response m); cbn [negb andb] in *; [|sdone].
-    destruct (m_skipq_ok m); cbn [negb andb] in *; [|sdone].
-    fold n in Hk.
-    destruct (spins (nbns_step m) pstate_eqb (2 * n + 4) start_state) eqn:Es; [discriminate|].
-    eapply (iter_total (nbns_step m) pstate_eqb pstate_eqb_eq (pmu m) (fun _ => True)
-              (fun _ _ _ _ => I) nbns_step_dec nbns_stop_safe (2 * n + 4)); try eassumption; try exact I.
-    unfold pmu, start_state; cbn [p_pos p_valid]. fold n. lia.
-  Qed.
-
-  Theorem process_nbns_spins valid y :
-    valid = true -> m_start_ok m = true -> m_response m = true -> m_skipq_ok m = true ->
-    spins (nbns_step m) pstate_eqb (2 * n + 4) start_state = Some y ->
-    forall fuel, process_nbns fuel valid m = Fuel.
-  Proof.
-    intros -> H1 H2 H3 Hs fuel. unfold process_nbns. rewrite H1, H2, H3. cbn [negb].
-    eapply iter_spins; [exact pstate_eqb_eq|exact Hs].
+    unfold process_nbns. intros fuel Hf.
+    destruct valid; cbn [negb]; [|sdone].
+    destruct (m_start_ok m); cbn [negb]; [|sdone].
+    destruct (m_response m); cbn [negb]; [|sdone].
+    destruct (m_skipq_ok m); cbn [negb]; [|sdone].
+    eapply (iter_total_dec (nbns_step m) (pmu m) nbns_inv
+              (fun x x' Hi E => proj1 (nbns_step_progress x x' Hi E)) nbns_stop_safe
+              (fun x x' Hi E => proj2 (nbns_step_progress x x' Hi E)) (2 * n + 4)).
+    - reflexivity.
+    - unfold pmu, start_state; cbn [p_pos p_valid]. fold n. lia.
+    - exact Hf.
   Qed.
 End NBNS.
 
+(* the former witnesses of #19 (answers of type 0x20 / of another type) are now skipped *)
 Definition nbns_w_name_answer : dmsg := mkMsg true true true 1 0 0 [mkRec true 32 false true true []].
 Definition nbns_w_unknown_answer : dmsg := mkMsg true true true 1 0 0 [mkRec true 1 true true true [192;168;0;1]].
 Definition nbns_w_good : dmsg :=
   mkMsg true true true 1 0 0 [mkRec true 33 false true true (1 :: repeat 65 15 ++ [32; 4; 0] ++ repeat 0 46)].
 
-Lemma nbns_refuted_name_answer : forall fuel, process_nbns fuel true nbns_w_name_answer = Fuel.
-Proof. intros fuel. eapply process_nbns_spins; reflexivity. Qed.
-Lemma nbns_refuted_unknown_answer : forall fuel, process_nbns fuel true nbns_w_unknown_answer = Fuel.
-Proof. intros fuel. eapply process_nbns_spins; reflexivity. Qed.
 Lemma nbns_nonvacuous :
-  known_C08_nbns true nbns_w_good = NNone /\ process_nbns 10 true nbns_w_good = Ok tt.
-Proof. split; vm_compute; reflexivity. Qed.
+  process_nbns 10 true nbns_w_good = Ok tt /\ process_nbns 10 true nbns_w_name_answer = Ok tt /\
+  process_nbns 10 true nbns_w_unknown_answer = Ok tt.
+Proof. repeat split; vm_compute; reflexivity. Qed.
